@@ -61,6 +61,17 @@ func (s *script) mark(b block) string {
 func (s *script) unmark(b block) string {
 	return s.do("unmark "+idList(b.tids)+" "+idList(b.eids), func() string { s.w.UnMark(b.tids, b.eids); return "ok" })
 }
+func (s *script) markz(k int, b block) string {
+	op, res := s.w.MarkZ(k, b.rids, b.tids, b.eids)
+	s.out.Emit(op, res)
+	return res
+}
+func (s *script) evq(id int) { s.do("evq "+strconv.Itoa(id), func() string { return strconv.FormatBool(s.w.Evicted(id)) }) }
+func (s *script) clear()     { s.do("clear", func() string { s.w.Clear(); return "ok" }) }
+func (s *script) restart() {
+	s.do("restart", func() string { s.w.Restart(); return "ok" })
+	s.chain = nil
+}
 func (s *script) get(id int)  { s.do("get "+strconv.Itoa(id), func() string { return s.w.Get(id) }) }
 func (s *script) has(id int)  { s.do("has "+strconv.Itoa(id), func() string { return strconv.FormatBool(s.w.Has(id)) }) }
 func (s *script) exec(id int) { s.do("exec "+strconv.Itoa(id), func() string { return strconv.FormatBool(s.w.Exec(id)) }) }
@@ -511,6 +522,137 @@ func (s *script) lessSort(c cfgT) {
 	}
 }
 
+// bigBlocks: blocks whose executed records exceed the 100 KiB batch threshold, so MarkExecuted writes
+// inside its loop; every physical write of the call is observed through the write gate, and in some
+// calls the k-th one is refused (process death between two batch writes), followed by a restart.
+func (s *script) bigBlocks() {
+	s.w.bigData = true
+	defer func() { s.w.bigData = false }()
+	s.reset(true, true, true, true, 0)
+	s.srcs = canonicalSources(s.r)
+	for round := 0; round < 3; round++ {
+		n := s.r.Pick(60, 77, 78, 79, 80, 160, 200, 230)
+		var ids []int
+		for i := 0; i < n; i++ {
+			s.reqSeq++
+			id := s.newTx(s.r.Bytes(32), s.srcs[s.r.Intn(5)], uint64(i), s.reqSeq, s.randGate())
+			ids = append(ids, id)
+			if s.r.Chance(2, 3) {
+				s.add(id) // pending here; the others arrive only inside the block
+			}
+		}
+		var ev []int
+		if s.r.Bool() {
+			ev, _ = subset(s.r, s.pendingIds(), 1, 8)
+		}
+		b := block{rids: ids, tids: append([]int{}, ids...), eids: ev}
+		k := 0
+		if s.r.Chance(1, 2) {
+			k = 1 + s.r.Intn(4)
+		}
+		res := s.markz(k, b)
+		s.stat()
+		for _, id := range []int{ids[0], ids[n/2], ids[n-1], ids[s.r.Intn(n)]} {
+			s.exec(id)
+			s.has(id)
+		}
+		if strings.HasPrefix(res, "crash") {
+			s.restart()
+			s.stat()
+			for _, id := range []int{ids[0], ids[n/2], ids[n-1]} {
+				s.exec(id)
+				s.get(id)
+			}
+			// the block is delivered again after the restart
+			s.markz(0, b)
+			s.exec(ids[n-1])
+		} else {
+			s.chain = append(s.chain, b)
+			if s.r.Bool() {
+				s.unmark(b)
+				s.stat()
+			}
+		}
+		s.pack()
+	}
+}
+
+// lru: the evicted cache (write-only for the pool's decisions, observed through the hook).
+func (s *script) lru() {
+	s.reset(true, true, true, true, 0)
+	s.srcs = canonicalSources(s.r)
+	n := s.r.Pick(12, 999, 1000, 1001, 1005)
+	var ids []int
+	for i := 0; i < n; i++ {
+		s.reqSeq++
+		ids = append(ids, s.newTx(s.r.Bytes(32), s.srcs[i%5], 0, s.reqSeq, 0))
+	}
+	for _, id := range ids[:6] {
+		s.add(id)
+	}
+	b := block{rids: ids[:2], tids: ids[:2], eids: ids[2:]}
+	s.mark(b)
+	for _, id := range []int{ids[0], ids[2], ids[3], ids[4], ids[n/2], ids[n-2], ids[n-1]} {
+		s.evq(id)
+	}
+	s.stat()
+	// an evicted transaction is not executed: it is admitted again
+	s.add(ids[2])
+	s.add(ids[n-1])
+	// touching an entry moves it to the front; a new entry then pushes out the oldest
+	extra := s.newTx(s.r.Bytes(32), s.srcs[0], 0, 0, 0)
+	s.mark(block{eids: []int{ids[3], extra}})
+	for _, id := range []int{ids[2], ids[3], ids[4], ids[5], extra} {
+		s.evq(id)
+	}
+	// removing the block forgets its evicted hashes (only when the block has transactions)
+	s.unmark(block{tids: nil, eids: []int{ids[n-1]}})
+	s.evq(ids[n-1])
+	s.unmark(block{tids: ids[:2], eids: []int{ids[n-1], ids[n-2]}})
+	s.evq(ids[n-1])
+	s.evq(ids[n-2])
+	s.evq(ids[n-3])
+	s.stat()
+}
+
+// clearScript: TxPool.Clear() (no caller in the node). Runs in a process of its own: it re-binds the
+// pool's store for the rest of the process.
+func (s *script) clearScript() {
+	s.reset(true, true, true, true, 0)
+	s.srcs = canonicalSources(s.r)
+	step := func() {
+		var ids []int
+		for i := 0; i < 4; i++ {
+			id := s.freshTx(true)
+			ids = append(ids, id)
+			s.add(id)
+		}
+		b := block{rids: ids[:2], tids: ids[:2]}
+		s.mark(b)
+		s.exec(ids[0])
+		s.has(ids[0])
+		s.add(ids[0]) // an executed transaction submitted again
+		s.get(ids[0])
+		s.stat()
+		s.pack()
+		s.unmark(b)
+		s.stat()
+	}
+	step()
+	s.clear()
+	s.stat()
+	step()
+	step()
+	s.restart()
+	step()
+	s.clear()
+	s.stat()
+	step()
+	s.restart()
+	step()
+	// (no reset after Clear: the hook's wipe iterates prefixed keys and cannot empty the shared store)
+}
+
 // corpus: "*.ops" files hold op lines; each is replayed against the real pool first.
 func (s *script) replayFile(path string) error {
 	f, err := os.Open(path)
@@ -584,6 +726,14 @@ func (s *script) replayLine(line string) {
 		s.mark(block{parseIds(f[1]), parseIds(f[2]), parseIds(f[3])})
 	case f[0] == "unmark" && len(f) == 3 && s.known(append(parseIds(f[1]), parseIds(f[2])...)...):
 		s.unmark(block{tids: parseIds(f[1]), eids: parseIds(f[2])})
+	case f[0] == "markz" && len(f) == 6 && s.known(append(append(parseIds(f[2]), parseIds(f[3])...), parseIds(f[4])...)...):
+		s.markz(atoi(f[1]), block{parseIds(f[2]), parseIds(f[3]), parseIds(f[4])})
+	case f[0] == "evq" && len(f) == 2 && s.known(atoi(f[1])):
+		s.evq(atoi(f[1]))
+	case f[0] == "clear" && len(f) == 1:
+		s.clear()
+	case f[0] == "restart" && len(f) == 1:
+		s.restart()
 	case f[0] == "get" && len(f) == 2 && s.known(atoi(f[1])):
 		s.get(atoi(f[1]))
 	case f[0] == "has" && len(f) == 2 && s.known(atoi(f[1])):
@@ -613,6 +763,11 @@ func runCorr(a map[string]string, pool service.TransactionPool) {
 	s := &script{w: newWorld(pool), out: out, r: r}
 	s.reset(true, true, true, true, 0)
 
+	if a["clear"] != "" {
+		s.clearScript()
+		fmt.Println("STATS " + out.StatsJSON())
+		return
+	}
 	if f := a["replay"]; f != "" {
 		if err := s.replayFile(f); err != nil {
 			panic(err)
@@ -639,7 +794,9 @@ func runCorr(a map[string]string, pool service.TransactionPool) {
 	for _, c := range []cfgT{{true, true, true, true}, {true, true, true, false}, {true, true, false, false}, {false, true, false, false}, {false, false, false, true}, {false, false, true, false}} {
 		s.lessSort(c)
 	}
-	// 4. generated scripts
+	// 4. generated scripts (one of each special kind first)
+	s.bigBlocks()
+	s.lru()
 	scripts := hx.ArgInt(a, "scripts", 60)
 	for i := 0; i < scripts; i++ {
 		switch x := r.Intn(100); {
@@ -655,9 +812,15 @@ func runCorr(a map[string]string, pool service.TransactionPool) {
 		case x < 90:
 			s.kind = "malformed"
 			s.general(20+r.Intn(120), r.Pick(0, 0, 3), r.Chance(1, 3), true)
-		case x < 96:
+		case x < 93:
 			s.kind = "big"
 			s.big()
+		case x < 95:
+			s.kind = "big-blocks"
+			s.bigBlocks()
+		case x < 97:
+			s.kind = "lru"
+			s.lru()
 		default:
 			s.kind = "big-no018"
 			s.bigNo018()
